@@ -40,6 +40,11 @@ BOUND = BOUND32 + [255, 256, 65535, 65536]
 SIZES = [0, 1, 9, MAXP - 1, MAXP, MAXP + 1, MAXP + 15, MAXP + 16, MAXP + 17, 2 * MAXP - 1, 2 * MAXP, 2 * MAXP + 1,
          2 * MAXP + 16, 2 * MAXP + 17, 3 * MAXP, 3 * MAXP + 1]
 IN_RANGE = range(0, 2**32)
+# The record types are plain namedtuples: records of DIFFERENT types with the same arity and equal fields compare
+# (and hash) equal.  With well-typed fields that is exactly Ping(x) == Pong(x) (arity 1; Ack holds an int, not
+# bytes); KCM is alone at arity 0, Close at 2, and Open/Data (arity 3) differ in str vs bytes.  Anything keyed on
+# ==/hash (a cache, a dict, a set, list.index/remove) confuses the two, so every stream carries such twins.
+TWIN_IDS = ["00000000", "01020304", "ffffffff"]
 # subprotocol names that are valid Unicode but NOT in NFC (nor NFKC): decomposed letters, compatibility
 # singletons (KELVIN / ANGSTROM / OHM SIGN), conjoining Hangul jamo, a mix, and marks in non-canonical order.
 # The codec must carry them code point for code point.
@@ -98,7 +103,9 @@ def rand_rec(rng, wide=False):
     if k == "kcm":
         return ["kcm"]
     if k in ("ping", "pong"):
-        return [k, bytes(rng.randrange(256) for _ in range(4)).hex()]
+        # half of the ids come from a small pool: a Ping and a Pong with the SAME id (the keepalive exchange) then
+        # meet inside one case and across the cases of one run, in both orders
+        return [k, rng.choice(TWIN_IDS) if rng.random() < 0.5 else bytes(rng.randrange(256) for _ in range(4)).hex()]
     if k == "open":
         name = rng.choice(["", "a", "proto", "é", "名前", "x" * 40, "\U0001f600z"] + NON_NFC)
         return ["open", num(), num(), name.encode("utf8").hex()]
@@ -113,6 +120,31 @@ def rand_rec(rng, wide=False):
 def cases(rng, tier):
     n = 1 if tier == "quick" else 40
     out = []
+    # corpus: records of different types whose fields are all equal (Ping(x) / Pong(x)), in both orders, within one
+    # case.  These come first, so that what anything keyed on ==/hash does to them is reported on a self-contained
+    # case: through a whole connection in both roles, through the selection world as the keepalive exchange of two
+    # peers living in one process, and through the codec alone — and then again across separate cases
+    for i, (a, b) in enumerate((("ping", "pong"), ("pong", "ping"))):
+        x, y = "a1a2a3%02x" % i, "b1b2b3%02x" % i
+        out.append(dict(kind="conn", relay=bool(i), leader=not i, chunk="rand", select_after=i, mut=None, mseed=40 + i,
+                        recs=[[a, x], [b, x], ["ack", 1], [b, y], [a, y], [a, x], [b, x]]))
+        out.append(dict(kind="sel", chunks=[10**6], turn_each_chunk=bool(i), mseed=40 + i,
+                        gens=[dict(lq=[], fq=[], ll=[[a, "c1c2c3%02x" % i], ["ack", 0]], fl=[[b, "c1c2c3%02x" % i]]),
+                              dict(lq=[["data", 0, 1, "00"]], fq=[], ll=[[b, "c4c4c4%02x" % i]], fl=[[a, "c4c4c4%02x" % i]])]))
+        out.append(dict(kind="codecseq", recs=[[a, "d1d2d3%02x" % i], [b, "d1d2d3%02x" % i], [a, "d1d2d3%02x" % i],
+                                               ["ack", 0xd1d2d300 + i], ["close", 1, 2], ["data", 1, 2, ""], ["open", 1, 2, ""]]))
+    # … and across cases: one process doing first the one, later the other (separate codec calls, separate
+    # connections, separate generations), in both orders
+    for i, (a, b) in enumerate((("ping", "pong"), ("pong", "ping"))):
+        out.append(dict(kind="seq", cases=[dict(kind="codec", rec=[a, tid]) for tid in TWIN_IDS] +
+                        [dict(kind="codec", rec=[b, tid]) for tid in TWIN_IDS]))
+        out.append(dict(kind="seq", cases=[
+            dict(kind="conn", relay=False, leader=bool(i), chunk="all", select_after=0, mut=None, mseed=44,
+                 recs=[[a, "e1e2e3e4"], ["ack", 7]]),
+            dict(kind="conn", relay=True, leader=not i, chunk="rand", select_after=1, mut=None, mseed=45,
+                 recs=[["close", 1, 2], [b, "e1e2e3e4"]]),
+            dict(kind="sel", chunks=[10**6], turn_each_chunk=False, mseed=46,
+                 gens=[dict(lq=[], fq=[], ll=[[a, "e1e2e3e4"]], fl=[[b, "e1e2e3e4"]])])]))
     # corpus: every 32-bit field of every record type at every boundary value (the other field runs through
     # the boundaries too): through a whole connection (real send_record on one side, real dataReceived on
     # the other) first, so that a failure is reported as a record the peer does not recover …
@@ -239,8 +271,35 @@ def _catch(f):
         return type(e).__name__
 
 
+def _fresh_process_state():
+    """A case must not depend on the cases run before it in this process (it has to replay on its own, and the
+    shrinker re-runs variants in this process): drop whatever the anchored modules have memoised."""
+    from wormhole._dilation import encode as _enc
+    for modl in (dc, _enc):
+        for v in list(vars(modl).values()):
+            clear = getattr(v, "cache_clear", None)
+            if callable(clear):
+                clear()
+
+
 def run_case(case):
+    _fresh_process_state()
+    return _run_one(case)
+
+
+def _run_one(case):
     k = case["kind"]
+    if k == "seq":
+        # several cases one after the other in ONE process state (connections / codec calls that follow each
+        # other in a long-lived process), reported and replayed as one self-contained case
+        lines, exp, viol, tags = [], [], [], ["seq"]
+        for i, sub in enumerate(case["cases"]):
+            r = _run_one(sub)
+            lines += ["reset"] + r.lines
+            exp += ["ok"] + r.expect
+            viol += [(sig, f"step {i + 1} of {len(case['cases'])} ({sub['kind']}): {msg}") for sig, msg in r.violations]
+            tags += r.tags
+        return Result(lines, exp, viol, tags)
     if k == "be4":
         lines, exp, viol = [], [], []
         for v in case["values"]:
@@ -288,6 +347,25 @@ def run_case(case):
         if any(isinstance(v, int) and v in BOUND32 for v in spec[1:]):
             tags.append("codec:boundary-field")
         return Result(lines, exp, viol, tags)
+    if k == "codecseq":
+        # several records encoded one after the other in one process: each must come back as itself, type included
+        lines, exp, viol = [], [], []
+        for spec in case["recs"]:
+            r = mk_rec(spec)
+            lines.append("enc " + show_rec(r))
+            e = _catch(lambda: hx(encode_record(r)))
+            exp.append(e)
+            if not _is_hex(e):
+                if rec_in_range(spec):
+                    viol.append(("codec-roundtrip", f"encode_record({show_rec(r)}) raised {e}"))
+                continue
+            lines.append("parse " + e)
+            back = _catch(lambda: parse_record(bytes.fromhex(e) if e != "-" else b""))
+            exp.append(back if isinstance(back, str) else show_rec(back))
+            if isinstance(back, str) or type(back) is not type(r) or tuple(back) != tuple(r):
+                viol.append(("codec-roundtrip", f"after {[sp[0] for sp in case['recs']]}: parse(encode({show_rec(r)})) = "
+                             f"{back if isinstance(back, str) else show_rec(back)}"))
+        return Result(lines, exp, viol, tags=["codecseq"])
     if k == "parse":
         b = bytes.fromhex(case["data"])
         r = _catch(lambda: show_rec(parse_record(b)))
@@ -1079,6 +1157,11 @@ def rand_sel_case(rng):
         gens.append(dict(links=links, lq=recs(0, rng.choice([0, 0, 1, 2, 4]), big=True), fq=recs(1, rng.choice([0, 0, 1, 3])),
                          ll=recs(0, rng.choice([0, 1, 3])) + ([["ack", rng.choice(BOUND32)]] if rng.random() < 0.3 else []),
                          fl=recs(1, rng.choice([0, 1, 2])) + ([["ping", "01020304"]] if rng.random() < 0.3 else [])))
+        if rng.random() < 0.5:                # a keepalive exchange: one side pings, the other answers with the same id
+            tid = rng.choice(TWIN_IDS)
+            a, b = rng.choice([("ll", "fl"), ("fl", "ll")])
+            gens[-1][a] = gens[-1][a] + [["ping", tid]]
+            gens[-1][b] = gens[-1][b] + [["pong", tid]]
     return dict(kind="sel", gens=gens, chunks=rng.choice([[1], [10**6], [1, 2, 3, 7, 50], [5, 1000, 70000], [17]]),
                 turn_each_chunk=rng.random() < 0.5, mseed=rng.randrange(10**6))
 
@@ -1096,6 +1179,18 @@ def search(rng, seconds, seeds):
 
 
 def shrink(case):
+    if case.get("kind") == "seq":
+        subs = case["cases"]
+        for i in range(len(subs)):
+            if len(subs) > 1:
+                yield dict(case, cases=subs[:i] + subs[i + 1:])
+        for i, sub in enumerate(subs):
+            for sub2 in shrink(sub):
+                yield dict(case, cases=subs[:i] + [sub2] + subs[i + 1:])
+        return
+    if case.get("kind") == "codecseq":
+        for i in range(len(case["recs"])):
+            yield dict(case, recs=case["recs"][:i] + case["recs"][i + 1:])
     if case.get("kind") == "sel":
         gens = case["gens"]
         for i in range(len(gens)):
